@@ -41,6 +41,7 @@ CMP_EDIT = ["push", "truncate"]
 def vec_run(prop, tier, seed, plan, interesting, assumptions, extra_cov=None):
     """plan: list of dict(kind,K,PP,MaxLen,MaxStamp,Depth,ops,replays=[(fmt,ty,block)])"""
     known_ids = vlib.all_known_devs()
+    stale_readers = [0]
     vec_devs = sorted(known_ids & {"D2", "D3", "D4", "D6", "D13", "D38"})
     tot_states = tot_trans = 0
     behaviours = steps = nontrivial = 0
@@ -96,6 +97,7 @@ def vec_run(prop, tier, seed, plan, interesting, assumptions, extra_cov=None):
                     steps += r["steps"]
                     nontrivial += r["distinct_nontrivial"]
                     cut += r["cut_permitted"]
+                    stale_readers[0] += r.get("stale_reader_registrations", 0)
                     pages_checked += r["pages_checked"]
                     pages_equal += r["pages_equal_model"]
                     read_calls += r.get("read_calls", 0); read_states += r.get("read_states", 0); accesses += r.get("accesses_checked", 0)
@@ -125,7 +127,7 @@ def vec_run(prop, tier, seed, plan, interesting, assumptions, extra_cov=None):
            "rule": "behaviours = maximal BFS-tree paths emitted by TLC for every distinct state of the bounded model, each "
                    "replayed on the real vector with the observable projection compared after every step; distinct counts (format, behaviour) pairs; " + interesting,
            "exhaustive": True, "runs": runs, "deviations_taken": {k: v["count"] for k, v in known_seen.items()},
-           "cut_after_permitted_divergence": cut, "page_index_checks": pages_checked, "page_index_equal_to_model": pages_equal,
+           "cut_after_permitted_divergence": cut, "stale_reader_registrations_dropped_between_behaviours": stale_readers[0], "page_index_checks": pages_checked, "page_index_equal_to_model": pages_equal,
            "read_calls": read_calls, "states_read": read_states, "accesses_checked": accesses,
            "checker_cmd": "tlc -config <generated> MCVec.tla ; vh vecreplay"}
     if extra_cov:
@@ -148,10 +150,10 @@ def c03(prop, tier, seed):
     ops_cmp = CMP_EDIT + ["write", "reimport", "reset"]
     plan = [
         # every history of the last 4 operations kept apart (latent state corruption needs the continuation)
-        dict(kind="raw", K=0, PP=2, MaxLen=2, MaxStamp=1, Depth=q(tier, 6, 7), ops=ops_raw, histk=q(tier, 4, 5),
+        dict(kind="raw", K=0, PP=2, MaxLen=2, MaxStamp=1, Depth=q(tier, 6, 7), ops=ops_raw, histk=4,
              replays=[("bytes", "u32", 1), ("zerocopy", "u32", 1)]),
         # longer vectors, other element widths and block scales
-        dict(kind="raw", K=0, PP=2, MaxLen=3, MaxStamp=1, Depth=q(tier, 6, 8), ops=ops_raw, histk=q(tier, 1, 2),
+        dict(kind="raw", K=0, PP=2, MaxLen=3, MaxStamp=1, Depth=q(tier, 6, 7), ops=ops_raw, histk=q(tier, 1, 2),
              replays=[("bytes", "u64", 3), ("zerocopy", "u64", 2)]
                      + q(tier, [], [("bytes", "u16", 1), ("bytes", "f64", 1025), ("bytes", "u32", 1), ("zerocopy", "u32", 1)])),
         dict(kind="cmp", K=0, PP=2, MaxLen=5, MaxStamp=1, Depth=q(tier, 7, 8), ops=ops_cmp, histk=q(tier, 4, 5),
@@ -351,9 +353,9 @@ def c04(prop, tier, seed):
     raw_ops = ["push", "truncate", "update", "delete", "reimport", "commit", "rollback", "rollback_before"]
     cmp_ops = ["push", "truncate", "reimport", "commit", "rollback", "rollback_before"]
     plan = [
-        dict(kind="raw", K=2, PP=2, MaxLen=2, MaxStamp=3, Depth=q(tier, 6, 7), ops=raw_ops, histk=q(tier, 3, 4),
+        dict(kind="raw", K=2, PP=2, MaxLen=2, MaxStamp=3, Depth=q(tier, 6, 7), ops=raw_ops, histk=3,
              replays=[("bytes", "u32", 1)]),
-        dict(kind="raw", K=2, PP=2, MaxLen=3, MaxStamp=3, Depth=q(tier, 6, 8), ops=raw_ops, histk=q(tier, 0, 1),
+        dict(kind="raw", K=2, PP=2, MaxLen=3, MaxStamp=3, Depth=q(tier, 6, 7), ops=raw_ops, histk=q(tier, 0, 1),
              replays=[("bytes", "u32", 1), ("zerocopy", "u32", 1)] + q(tier, [], [("bytes", "u64", 3)])),
         dict(kind="cmp", K=2, PP=2, MaxLen=4, MaxStamp=3, Depth=q(tier, 6, 7), ops=cmp_ops, histk=q(tier, 3, 4),
              replays=[("pco", "u32", 1)]),
@@ -511,14 +513,14 @@ ALL_RAW_OPS = ["create", "write", "truncate", "rename", "remove", "hold", "flush
 def raw_plan(tier):
     return [
         # every operation and write kind, two names
-        dict(names=["a", "b"], sizes=[1, 3, 5], maxfile=24, depth=q(tier, 5, 6), ops=ALL_RAW_OPS, histk=q(tier, 1, 2),
+        dict(names=["a", "b"], sizes=[1, 3, 5], maxfile=24, depth=q(tier, 5, 6), ops=ALL_RAW_OPS, histk=1,
              scales=[2048] + q(tier, [1000], [1, 1000, 4097])),
         # allocation focus: three names, growth / relocation / removal / hole reuse / reopen
-        dict(names=["a", "b", "c"], sizes=[3, 5], maxfile=40, depth=q(tier, 6, 8), ops=["create", "write", "remove", "flush", "reopen"],
-             wkinds=["append"], histk=q(tier, 0, 1), scales=[2048] + q(tier, [], [4097])),
+        dict(names=["a", "b", "c"], sizes=[3, 5], maxfile=40, depth=q(tier, 6, 7), ops=["create", "write", "remove", "flush", "reopen"],
+             wkinds=["append"], histk=0, scales=[2048] + q(tier, [], [4097])),
         # initial file sizes (open_with_min_len below / above one page, unaligned)
         # hole coalescing: four one-page regions already exist; removals / flushes / re-creation / growth
-        dict(names=["a", "b", "c", "d"], pre=["a", "b", "c", "d"], sizes=[3], maxfile=24, depth=q(tier, 6, 8),
+        dict(names=["a", "b", "c", "d"], pre=["a", "b", "c", "d"], sizes=[3], maxfile=24, depth=q(tier, 6, 7),
              ops=["create", "write", "remove", "flush"], wkinds=["append"], histk=0, scales=[2048]),
         dict(names=["a", "b"], sizes=[3], maxfile=24, depth=q(tier, 4, 6), ops=["create", "write", "remove", "flush", "reopen"],
              wkinds=["append"], initlen=1, scales=[2048]),
@@ -874,8 +876,8 @@ def c10(prop, tier, seed):
     conc = conc_run(prop, tier, seed, conc_plan(tier))
     # a long-lived reader against every sequential history of the allocator (RawDb.tla: ReaderOwn)
     rdr = raw_run(prop, tier, seed, [
-        dict(names=["a", "b"], sizes=[1, 3], maxfile=24, depth=q(tier, 5, 7), ops=["create", "write", "truncate", "flush", "compact", "reader"],
-             wkinds=["append", "tw0"], pre=["a"], prewrite=True, histk=q(tier, 0, 1), scales=[2048], design_invs=["ReaderOwn"]),
+        dict(names=["a", "b"], sizes=[1, 3], maxfile=24, depth=q(tier, 5, 6), ops=["create", "write", "truncate", "flush", "compact", "reader"],
+             wkinds=["append", "tw0"], pre=["a"], prewrite=True, histk=0, scales=[2048], design_invs=["ReaderOwn"]),
     ], "non-trivial = length >= 3 containing a relocation, an adjacent-hole growth or a reopen", RAW_ASSUME)
     free = conc_free(prop, tier, seed)
     out = conc
@@ -1198,7 +1200,7 @@ def crash_run(prop, tier, seed, plan, assumptions):
             # crash points are only counted after a completed flush: keep behaviours that contain one
             paths = [p for p in paths if any(s["op"] in ("flush", "compact") for s in p[:-1])]
             all_paths = len(paths)
-            cap = q(tier, 20000, 30000)
+            cap = q(tier, 20000, 12000)
             if len(paths) > cap:
                 # a seed-dependent stride through the behaviours (TLC has still explored every state; the crash model RawCrash.tla is exhaustive on its own bounds)
                 stride = -(-len(paths) // cap)
@@ -1213,7 +1215,7 @@ def crash_run(prop, tier, seed, plan, assumptions):
                 vlib.write_ndjson(sf, paths[si::nsh])
                 files.append(sf)
             with cf.ThreadPoolExecutor(14) as ex:
-                futs = {ex.submit(vlib.run_vh, ["crashreplay", "--in", sf, "--max-choices", str(item.get("choices", 12)), "--prop", prop]): si
+                futs = {ex.submit(vlib.run_vh, ["crashreplay", "--in", sf, "--max-choices", str(item.get("choices", 12)), "--prop", prop], 5000): si
                         for si, sf in enumerate(files)}
                 for fu in cf.as_completed(futs):
                     si = futs[fu]
@@ -1269,8 +1271,8 @@ def crash_model(tier):
     wd = vlib.scratch_dir("crashmodel")
     try:
         items = [
-            dict(names=["a", "b"], sizes=[1, 3], depth=q(tier, 6, 7), ops=["create", "write", "truncate", "remove", "flush", "compact", "rflush"], wkinds=["append", "tw0"], pre=[]),
-            dict(names=["a", "b", "c"], sizes=[3], depth=q(tier, 4, 6), ops=["create", "write", "remove", "flush", "compact"], wkinds=["append"], pre=["a", "b"], prewrite=True),
+            dict(names=["a", "b"], sizes=q(tier, [1, 3], [1, 3, 5]), depth=6, ops=["create", "write", "truncate", "remove", "flush", "compact", "rflush"], wkinds=["append", "tw0"], pre=[]),
+            dict(names=["a", "b", "c"], sizes=[3], depth=q(tier, 4, 5), ops=["create", "write", "remove", "flush", "compact"], wkinds=["append"], pre=["a", "b"], prewrite=True),
         ]
         futs = []
         with cf.ThreadPoolExecutor(3) as ex:
@@ -1322,12 +1324,12 @@ def add_crash_model(res, cm):
 def c05(prop, tier, seed):
     plan = [
         dict(names=["a", "b", "c", "d"], pre=["a", "b", "c"], prewrite=True, sizes=[3], maxfile=40, depth=q(tier, 4, 6),
-             ops=["create", "write", "remove", "flush", "compact"], choices=q(tier, 8, 24)),
+             ops=["create", "write", "remove", "flush", "compact"], choices=q(tier, 8, 16)),
         # freed extents (relocation / removal) vs the per-region flush, then reuse of the extent by a new region
         dict(names=["a", "b", "c", "d"], pre=["a", "b", "c"], prewrite=True, sizes=[1, 3], maxfile=40, depth=q(tier, 4, 5),
-             ops=["create", "write", "remove", "rflush"], histk=q(tier, 2, 3), choices=q(tier, 8, 24)),
+             ops=["create", "write", "remove", "rflush"], histk=q(tier, 2, 3), choices=q(tier, 8, 16)),
         dict(names=["a", "b"], sizes=[3, 5], maxfile=40, depth=q(tier, 6, 7), ops=["create", "write", "truncate", "rename", "remove", "flush", "rflush"],
-             wkinds=["append", "at0", "tw1"], choices=q(tier, 8, 24)),
+             wkinds=["append", "at0", "tw1"], choices=q(tier, 8, 16)),
     ]
     with cf.ThreadPoolExecutor(1) as ex:
         fm = ex.submit(crash_model, tier)
@@ -1341,10 +1343,10 @@ def c12(prop, tier, seed):
     # readable bytes, lengths, placement and file length unchanged by compact
     crash = crash_run(prop, tier, seed, [
         dict(names=["a", "b", "c", "d"], pre=["a", "b", "c"], prewrite=True, sizes=[3], maxfile=40, depth=q(tier, 4, 5),
-             ops=["write", "remove", "compact", "create"], choices=q(tier, 8, 40)),
+             ops=["write", "remove", "compact", "create"], choices=q(tier, 8, 16)),
         # a region truncated by whole pages since the last flush, then compact: its tail must not be punched while durable metadata still covers it
         dict(names=["a", "b"], pre=["a", "b"], prewrite=True, sizes=[3, 5], maxfile=40, depth=q(tier, 4, 5),
-             ops=["write", "truncate", "flush", "compact"], wkinds=["append"], histk=q(tier, 3, 4), choices=q(tier, 8, 40)),
+             ops=["write", "truncate", "flush", "compact"], wkinds=["append"], histk=q(tier, 3, 4), choices=q(tier, 8, 16)),
     ], CRASH_ASSUME)
     live = raw_run(prop, tier, seed, [
         dict(names=["a", "b", "c"], pre=["a", "b", "c"], sizes=[1, 5], maxfile=40, depth=q(tier, 4, 6), ops=["write", "truncate", "remove", "flush", "compact", "create"],
@@ -1580,11 +1582,11 @@ def eager_run(prop, tier, seed, methods, windows, fmts, note):
     violations, known_lines, per_method = [], [], {}
     try:
         states, trans, hs = eager_histories(q(tier, 6, 7), q(tier, 2, 3), q(tier, 3, 4), wd)
-        # a rotating sample per method keeps the quick tier short; thorough replays everything
+        # a rotating sample per method keeps the quick tier short; thorough takes up to 6000 histories per method (at a greater depth and HistK)
         nd_all = os.path.join(wd, "all.ndjson")
         vlib.write_ndjson(nd_all, hs)
         jobs = []
-        cap = q(tier, 1200, len(hs))
+        cap = min(q(tier, 1200, 6000), len(hs))
         for mi, m in enumerate(methods):
             sub = hs[mi % 7::max(1, len(hs) // cap)][:cap] if cap < len(hs) else hs
             f = os.path.join(wd, f"h_{m}.ndjson")
@@ -1595,7 +1597,7 @@ def eager_run(prop, tier, seed, methods, windows, fmts, note):
         computes = steps = behaviours = nontrivial = multi = 0
         def one(job):
             m, w, sf, of, f, sub = job
-            p = __import__("subprocess").run(["timeout", "900", vlib.VH, "eagerreplay", "--in", f, "--method", m, "--window", str(w), "--srcfmt", sf, "--outfmt", of,
+            p = __import__("subprocess").run(["timeout", "3000", vlib.VH, "eagerreplay", "--in", f, "--method", m, "--window", str(w), "--srcfmt", sf, "--outfmt", of,
                                               "--hang-secs", "10"], stdout=__import__("subprocess").PIPE, stderr=__import__("subprocess").DEVNULL, text=True)
             if p.returncode not in (0, 1):
                 raise ToolError(f"eagerreplay {m} rc={p.returncode}")
